@@ -92,11 +92,48 @@ Proof.
   - inversion H; subst. right. repeat split.
   - destruct (closed s) eqn:C. { inversion H; subst. left; assumption. }
     destruct (sub_expired g s b).
-    + destruct (sb_server b).
+    + destruct (sub_refreshed g s b) as [e|].
+      { destruct (tick_subs g (set_subs s _) r) as [s2 o2] eqn:E. inversion H; subst.
+        destruct (IH _ _ _ E) as [X|X]; [left; exact X|right; cbn in X; rewrite C in X; exact X]. }
+      destruct (sb_server b).
       * unfold close in H. rewrite C in H. inversion H; subst. left; reflexivity.
       * destruct (tick_subs g (set_subs s _) r) as [s2 o2] eqn:E. inversion H; subst.
         destruct (IH _ _ _ E) as [Hc|Hk]; [left; assumption|right]. cbn in Hk. rewrite C in Hk. exact Hk.
     + destruct (IH _ _ _ H) as [X|X]; [left; exact X|right; rewrite C in X; exact X].
+Qed.
+
+Lemma tick_pos_keeps : forall l s s' o,
+  tick_pos s l = (s', o) ->
+  closed s' = true \/
+  (closed s' = closed s /\ auth s' = auth s /\ armed s' = armed s /\ nExpire s' = nExpire s /\
+   nPresence s' = nPresence s /\ nPing s' = nPing s /\ nPong s' = nPong s /\ exp s' = exp s /\ now s' = now s).
+Proof.
+  induction l as [|b r IH]; intros s s' o H; cbn [tick_pos] in H.
+  - inversion H; subst. right. repeat split.
+  - destruct (closed s) eqn:C. { inversion H; subst. left; assumption. }
+    destruct (sb_server b).
+    + unfold close in H. rewrite C in H. inversion H; subst. left; reflexivity.
+    + destruct (tick_pos (set_subs s _) r) as [s2 o2] eqn:E. inversion H; subst.
+      destruct (IH _ _ _ E) as [Hc|Hk]; [left; assumption|right]. cbn in Hk. rewrite C in Hk. exact Hk.
+Qed.
+
+Lemma tick_keeps : forall g s s' o,
+  tick g s = (s', o) ->
+  closed s' = true \/
+  (closed s' = closed s /\ auth s' = auth s /\ armed s' = armed s /\ nExpire s' = nExpire s /\
+   nPresence s' = nPresence s /\ nPing s' = nPing s /\ nPong s' = nPong s /\ exp s' = exp s /\ now s' = now s).
+Proof.
+  intros g s s' o H. unfold tick in H.
+  destruct (tick_subs g (set_subs s (stamp g s (subs s))) _) as [s1 o1] eqn:E1.
+  destruct (tick_pos s1 _) as [s2 o2] eqn:E2. inversion H; subst s' o. clear H.
+  apply tick_subs_keeps in E1. apply tick_pos_keeps in E2.
+  destruct E2 as [X|X]; [left; exact X|].
+  destruct E1 as [Y|Y].
+  - left. destruct X as [X1 _]. rewrite X1. exact Y.
+  - right. cbn in Y.
+    destruct X as [X1 [X2 [X3 [X4 [X5 [X6 [X7 [X8 X9]]]]]]]].
+    destruct Y as [Y1 [Y2 [Y3 [Y4 [Y5 [Y6 [Y7 [Y8 Y9]]]]]]]].
+    repeat split; congruence.
 Qed.
 
 Lemma step_inv : forall g s l s' o, step g s l = Some (s', o) -> inv s -> inv s'.
@@ -118,7 +155,8 @@ Proof.
       destruct (e =? 0); [cbn; rewrite C; cbn; assumption|].
       destruct (now s <? e); cbn; rewrite C; cbn; assumption.
     - inversion H as [H']. destruct (auth s); [unfold sub_refresh_cmd in H'|unfold close in H']; rewrite C in H';
-        inversion H'; subst; assumption. }
+        inversion H'; subst; assumption.
+    - inversion H; subst. cbn. assumption. }
   specialize (I C). destruct I as [Iu Ia].
   destruct l; cbn [step step_gen] in H.
   - (* advance *) inversion H; subst. intro C'. cbn in *. auto.
@@ -134,7 +172,7 @@ Proof.
         cbn [unusable upd_armed] in H'.
         destruct (unusable s). { use_fst H'. apply close_inv. }
         unfold schedule in H'. cbn [closed set_times upd_armed] in H'. rewrite C in H'.
-        apply tick_subs_keeps in H'. destruct H' as [Hc|Hk]; [apply inv_closed; assumption|].
+        apply tick_keeps in H'. destruct H' as [Hc|Hk]; [apply inv_closed; assumption|].
         cbn in Hk. destruct Hk as [K1 [K2 [K3 [K4 [K5 [K6 [K7 [K8 K9]]]]]]]].
         intro C'. split; intro Ax; [congruence|]. split.
         -- rewrite K3. unfold pick. rewrite K4, K5, K6, K7. reflexivity.
@@ -233,6 +271,8 @@ Proof.
         -- intro C'. split; intro Ax; [unfold schedule in Ax; cbn in Ax; rewrite ?C in Ax; cbn in Ax; congruence|]. cbn. apply Ia; reflexivity.
       * use_fst H'. apply close_inv.
     + inversion H'; subst. intro; split; intro; [congruence|auto].
+  - (* stream moves *)
+    inversion H; subst. intro C'. split; intro Ax; [cbn in Ax; congruence|]. cbn. apply Ia; assumption.
 Qed.
 
 Lemma init_inv : forall g, inv (init g).
@@ -269,7 +309,7 @@ Theorem prefix_starves :
   exists g ls s os,
     exec_prefix g (init g) ls = Some (s, os) /\ closed s = false /\ cover_ok (snap_of s) = false.
 Proof.
-  exists (mkCfg 20 10 23 20 10 10 false RNone),
+  exists (mkCfg 20 10 23 20 10 10 false RNone SFail),
          [LAdvance 5; LConnect 20 true 13 10; LSrvRefresh false 0; LAdvance 10; LFire; LPong;
           LAdvance 10; LFire; LAdvance 10; LFire; LFire].
   eexists. eexists. vm_compute. repeat split; reflexivity.
@@ -354,25 +394,51 @@ Proof.
   repeat split; try reflexivity; try assumption. lia.
 Qed.
 
-(* subscription expiry at the presence tick: exactly the expired client-side subscriptions
-   are unsubscribed with 2501 *)
+(* subscription expiry at the presence tick: exactly the expired client-side subscriptions that
+   the application does not extend are unsubscribed with 2501 *)
+Definition sub_gone (g : cfg) (s : st) (b : sub) : bool :=
+  sub_expired g s b && match sub_refreshed g s b with None => true | Some _ => false end.
+
+Definition tick_out (g : cfg) (s : st) (b : sub) : list out :=
+  if sub_expired g s b
+  then sub_ask b ++ (if sub_gone g s b then [OUnsub (sb_name b) 2501] else [])
+  else [].
+
 Lemma tick_subs_spec : forall g l s,
   closed s = false ->
-  (forall b, In b l -> sub_expired g s b = true -> sb_server b = false) ->
-  snd (tick_subs g s l) = map (fun b => OUnsub (sb_name b) 2501) (filter (sub_expired g s) l) /\
+  (forall b, In b l -> sub_gone g s b = true -> sb_server b = false) ->
+  snd (tick_subs g s l) = flat_map (tick_out g s) l /\
   closed (fst (tick_subs g s l)) = false.
 Proof.
-  induction l as [|b r IH]; intros s C Hs; cbn [tick_subs filter map].
+  induction l as [|b r IH]; intros s C Hs; cbn [tick_subs flat_map].
   - auto.
-  - rewrite C. destruct (sub_expired g s b) eqn:E.
-    + rewrite (Hs b (or_introl eq_refl) E).
-      set (s1 := set_subs s (filter (fun x => negb (sb_name x =? sb_name b)) (subs s))).
-      assert (X : forall x, sub_expired g s1 x = sub_expired g s x) by reflexivity.
-      destruct (IH s1 C) as [I1 I2].
-      { intros x Hx Ex. rewrite X in Ex. apply Hs; [right; assumption|assumption]. }
-      destruct (tick_subs g s1 r) as [s2 o2]. cbn [fst snd] in *. split; [|assumption].
-      cbn [map]. rewrite I1. do 2 f_equal.
+  - rewrite C. unfold tick_out at 1, sub_gone at 1. destruct (sub_expired g s b) eqn:E; cbn [andb].
+    + destruct (sub_refreshed g s b) as [e|] eqn:R.
+      * set (s1 := set_subs s (set_sub_exp (subs s) (sb_name b) e)).
+        assert (X : forall x, sub_gone g s1 x = sub_gone g s x) by reflexivity.
+        destruct (IH s1 C) as [I1 I2].
+        { intros x Hx Ex. rewrite X in Ex. apply Hs; [right; assumption|assumption]. }
+        destruct (tick_subs g s1 r) as [s2 o2]. cbn [fst snd] in *. split; [|assumption].
+        rewrite I1, app_nil_r. reflexivity.
+      * assert (G : sub_gone g s b = true) by (unfold sub_gone; rewrite E, R; reflexivity).
+        rewrite (Hs b (or_introl eq_refl) G).
+        set (s1 := set_subs s (filter (fun x => negb (sb_name x =? sb_name b)) (subs s))).
+        assert (X : forall x, sub_gone g s1 x = sub_gone g s x) by reflexivity.
+        destruct (IH s1 C) as [I1 I2].
+        { intros x Hx Ex. rewrite X in Ex. apply Hs; [right; assumption|assumption]. }
+        destruct (tick_subs g s1 r) as [s2 o2]. cbn [fst snd] in *. split; [|assumption].
+        rewrite I1, <- app_assoc. reflexivity.
     + apply IH; [assumption|]. intros x Hx. apply Hs. right; assumption.
+Qed.
+
+(* an expired subscription without client-side refresh that the SubRefreshHandler extends stays,
+   with the new expiry, and nothing is written for it *)
+Lemma tick_sub_extended : forall g s b e,
+  closed s = false -> sub_expired g s b = true -> sub_refreshed g s b = Some e ->
+  tick_subs g s [b] = (set_subs s (set_sub_exp (subs s) (sb_name b) e), [OAsk (sb_name b)]).
+Proof.
+  intros g s b e C E R. cbn [tick_subs]. rewrite C, E, R. unfold sub_ask.
+  unfold sub_refreshed in R. destruct (sb_csr b); [discriminate|]. reflexivity.
 Qed.
 
 (* ---------- pong bookkeeping over runs: lastSeen < lastPing iff no pong since the last ping ---------- *)
@@ -393,7 +459,11 @@ Lemma tick_subs_K : forall g l s, K s -> K (fst (tick_subs g s l)).
 Proof.
   induction l as [|b r IH]; intros s H; cbn [tick_subs]; [assumption|].
   destruct (closed s); [assumption|]. destruct (sub_expired g s b).
-  - destruct (sb_server b); [apply close_K; assumption|].
+  - destruct (sub_refreshed g s b) as [e|].
+    { specialize (IH (set_subs s (set_sub_exp (subs s) (sb_name b) e))).
+      destruct (tick_subs g _ r) as [s2 o2]. cbn [fst] in *. apply IH. eapply K_ext; eauto. }
+    destruct (sb_server b).
+    { pose proof (close_K s 3006 H) as X. destruct (close s 3006) as [s2 o2]. exact X. }
     specialize (IH (set_subs s (filter (fun x => negb (sb_name x =? sb_name b)) (subs s)))).
     destruct (tick_subs g _ r) as [s2 o2]. cbn [fst] in *. apply IH. eapply K_ext; eauto.
   - apply IH; assumption.
